@@ -154,17 +154,28 @@ func convertVMFunctionToType(rv reflect.Value, rt reflect.Type) (reflect.Value, 
 		// TOFIX: use normal context
 		args = append(args, reflect.ValueOf(context.Background()))
 		// the variadic parameter of a variadic runVMFunction is a []interface{}
-		// that takes the plain values, not the double reflect.ValueOf
-		numFixed := rt.NumIn()
+		// that takes the plain values, not the double reflect.ValueOf; what Go
+		// hands over as its own variadic slice is spread over the parameters first
 		if rv.Type().IsVariadic() {
-			numFixed = rv.Type().NumIn() - 2
-		}
-		for i := 0; i < rt.NumIn(); i++ {
-			if i < numFixed {
+			if rt.IsVariadic() && len(in) > 0 {
+				last := in[len(in)-1]
+				in = in[: len(in)-1 : len(in)-1]
+				for j := 0; j < last.Len(); j++ {
+					in = append(in, last.Index(j))
+				}
+			}
+			numFixed := rv.Type().NumIn() - 2
+			for i := range in {
+				if i < numFixed {
+					args = append(args, reflect.ValueOf(in[i]))
+				} else {
+					args = append(args, in[i])
+				}
+			}
+		} else {
+			for i := 0; i < rt.NumIn(); i++ {
 				// have to do the double reflect.ValueOf that runVMFunction expects
 				args = append(args, reflect.ValueOf(in[i]))
-			} else {
-				args = append(args, in[i])
 			}
 		}
 
